@@ -31,6 +31,51 @@ def ptr_sub(t, base_pred, off_pred):
 SHIFT = {1: 'shift_in_one_byte', 2: 'shift_in_two_bytes', 3: 'shift_in_three_bytes'}
 
 
+def param_at_(b, i):
+    from acverif.rl import param_at
+    return param_at(b, i)
+
+
+def candidate_rule(cx, c, fam, k, tag):
+    """Slim/Fat<V, k>::candidate on its path summary: load(cur) -> members_k -> result j shifted in by k-1-j bytes from carry j
+    -> AND of all; carry j = result j."""
+    from acverif.sym import summarize, canon, cstr
+    from acverif.rl import param_at
+    rows = [r for r in summarize(cx.facts, c) if r.end == 'return']
+    why = None
+    if len(rows) != 1:
+        why = '%d paths (expected straight-line code)' % len(rows)
+    else:
+        r = rows[0]
+        CUR = cstr(param_at(c, 2))
+        carries = [cstr(param_at(c, 3 + j)) for j in range(k - 1)]
+        load = 'packed::vector::Vector::load_unaligned' if fam == 'Slim' else 'packed::vector::FatVector::load_half_unaligned'
+        MEM = 'packed::teddy::generic::Mask::members%d(%s(%s), self.masks)' % (k, load, CUR)
+        res = [MEM if k == 1 else '%s.%d' % (MEM, j) for j in range(k)]
+        pref = '' if fam == 'Slim' else 'half_'
+        trait = 'Vector' if fam == 'Slim' else 'FatVector'
+        want = set()
+        for j in range(k - 1):
+            want.add('packed::vector::%s::%s%s(%s, %s)' % (trait, pref, SHIFT[k - 1 - j], res[j], carries[j]))
+        want.add(res[k - 1])
+        leaves = []
+
+        def flat(x):
+            x = canon(x)
+            if is_call(x, r'packed::vector::Vector::and$'):
+                flat(x[2][0])
+                flat(x[2][1])
+            else:
+                leaves.append(cstr(x))
+        flat(r.ret)
+        if set(leaves) != want or len(leaves) != k:
+            why = 'the candidate vector is the AND of %s, expected %s' % (sorted(leaves), sorted(want))
+        st = {cstr(p): cstr(v) for p, v in r.stores()}
+        if st != {carries[j]: res[j] for j in range(k - 1)}:
+            why = why or 'the carry vectors are updated as %s (expected carry j = result j of this window)' % st
+    cx.report('R06.1', c, 'candidate', why is None, '%s: load(cur) -> members%d -> result j shifted in by k-1-j bytes from carry j -> AND; carry j = result j' % (tag, k) if why is None else '%s::candidate deviates: %s' % (tag, why))
+
+
 def find_rules(cx, b, one, fam, k, tag):
     """Slim/Fat<V, k>::find and find_one, tabulated over haystack lengths on the iteration summaries."""
     from acverif.sym import simulate, SimError, Sym, summarize, canon, cstr, teval, row_consistent
@@ -178,43 +223,7 @@ def r06_1(cx):
             b = find
             prevs = ['prev%d' % j for j in range(k - 1)]
             find_rules(cx, find, one, fam, k, tag)
-            # candidate
-            c = cand
-            load = 'Vector::load_unaligned' if fam == 'Slim' else 'FatVector::load_half_unaligned'
-            ch = c.locals_named('chunk')
-            okload = False
-            if ch:
-                d = c.def_term(ch[0])
-                okload = d is not None and is_call(d, r'packed::vector::%s$' % load) and is_var(peel(d[2][0]), 'cur')
-            mem = [c.call_term(bi, t) for bi, t in c.calls(r'Mask::members%d$' % k)]
-            okmem = len(mem) == 1 and is_var(peel(mem[0][2][0]), 'chunk') and tstr(peel(mem[0][2][1])) == 'self.masks'
-            res = lambda j: ('v', 'res%d' % j, c.locals_named('res%d' % j)[0]) if c.locals_named('res%d' % j) else None
-            okshift = True
-            shifted = []
-            pref = '' if fam == 'Slim' else 'half_'
-            for j in range(k - 1):
-                sc = [c.call_term(bi, t) for bi, t in c.calls(r'::%s%s$' % (pref, SHIFT[k - 1 - j]))]
-                good = [x for x in sc if peel(x[2][0]) == res(j) and is_var(peel(x[2][1]), 'prev%d' % j)]
-                if len(good) != 1:
-                    okshift = False
-            # stores prev_j = res_j
-            sts = {tstr(tt): v for bi, si, tt, v, s in c.field_stores()}
-            okstore = all(sts.get('prev%d' % j) == res(j) for j in range(k - 1)) and len(sts) == k - 1
-            # result = AND of all
-            ret = expand_vars(c, c.def_term(0) or c.local_term(0), keep=('self', 'cur', 'chunk') + tuple('res%d' % j for j in range(k)) + tuple('prev%d' % j for j in range(k)))
-            leaves = []
-            def flat(t):
-                if is_call(t, r'Vector::and$'):
-                    flat(t[2][0]); flat(t[2][1])
-                else:
-                    leaves.append(t)
-            flat(ret)
-            okand = len(leaves) == k and (k == 1 or (res(k - 1) in [peel(x) for x in leaves] and sum(1 for x in leaves if re.search(r'shift_in_', tstr(x))) == k - 1))
-            if k == 1:
-                okand = is_call(ret, r'Mask::members1$')
-            ok = okload and okmem and okshift and okstore and okand
-            cx.report('R06.1', c, 'candidate', ok, '%s: load(cur) -> members%d -> result j shifted in by %s bytes from prev_j -> AND; prev_j = res_j' % (tag, k, 'k-1-j') if ok else
-                      '%s::candidate deviates (load=%s members=%s shifts=%s stores=%s and=%s)' % (tag, okload, okmem, okshift, okstore, okand))
+            candidate_rule(cx, cand, fam, k, tag)
     cx.floor('R06.1', 'generic Teddy searchers', n, 8)
     for fam in ('Slim', 'Fat'):
         m = cx.body('%s%s::<V, BYTES>::minimum_len' % (GEN, fam))
@@ -260,15 +269,29 @@ def r06_3(cx):
             cx.bad('R06.3', 'Teddy<%d>::verify' % buckets, 'closure', 'lane closure not found')
             continue
         cx.bodies_seen.add(c.path)
-        st = [(tstr(tt), v0) for bi, si, tt, v0, s in c.field_stores()]
-        okstep = len(st) == 1 and st[0][0] == '_1.cur' and is_call(st[0][1], r'const_ptr::add$') and tstr(st[0][1][2][0]) == '_1.cur' and st[0][1][2][1] == ('c', step)
-        vc = [c.call_term(bi, t) for bi, t in c.calls(r'Teddy::verify64$')]
-        okv = len(vc) == 1 and [tstr(peel(x)) for x in vc[0][2]] == ['_1.self', '_1.cur', '_1.end', 'chunk']
-        # verify64 is called with the base before it is advanced
-        okord = okv and okstep and c.calls(r'Teddy::verify64$')[0][0] in c.reach(0, cut_blocks=[bi for bi, si, tt, v0, s in c.field_stores()])
-        ok = okstep and okv and okord and step * buckets == 64
-        cx.report('R06.3', c, 'lane-step', ok, 'Teddy<%d>: each 64-bit lane covers %d haystack positions (%d x %d = 64) and is verified from its own base' % (buckets, step, step, buckets) if ok else
-                  'Teddy<%d>::verify lane stepping deviates: %s' % (buckets, [(a, tstr(b0, 80)) for a, b0 in st]))
+        from acverif.sym import Sym, canon, cstr
+        rws = [r for r in Sym(cx.facts, c).rows() if r.end == 'return']
+        why = None if len(rws) == 1 else '%d paths through the lane closure' % len(rws)
+        if why is None:
+            r = rws[0]
+            sts = [(canon(p0), canon(v0)) for p0, v0 in r.stores()]
+            v64 = [canon(x) for x in r.calls(r'Teddy::verify64$')]
+            if len(sts) != 1 or len(v64) != 1:
+                why = '%d stores / %d verify64 calls' % (len(sts), len(v64))
+            else:
+                tgt, val = sts[0]
+                okstep = is_call(val, r'const_ptr::add$') and cstr(val[2][0]) == cstr(tgt) and val[2][1] == ('c', step)
+                # verify64(self, <the cursor before it is advanced>, end, chunk): the call precedes the store
+                ev = [e for e in r.effects if e[0] in ('call', 'store')]
+                ci = [i0 for i0, e in enumerate(ev) if e[0] == 'call' and short(e[1][1]).endswith('verify64')][0]
+                si_ = [i0 for i0, e in enumerate(ev) if e[0] == 'store'][0]
+                a = v64[0][2]
+                okv = len(a) == 4 and cstr(a[1]) == cstr(tgt) and cstr(a[3]) == cstr(param_at_(c, c.j['arg_count'])) and cstr(a[2]) != cstr(tgt) and ci < si_
+                okret = cstr(r.ret) == cstr(v64[0])
+                if not (okstep and okv and okret and step * buckets == 64):
+                    why = 'step ok=%s, verify64(self, cursor, end, chunk) before the step=%s, result returned=%s' % (okstep, okv, okret)
+        cx.report('R06.3', c, 'lane-step', why is None, 'Teddy<%d>: each 64-bit lane covers %d haystack positions (%d x %d = 64) and is verified from its own base' % (buckets, step, step, buckets) if why is None else
+                  'Teddy<%d>::verify lane stepping deviates: %s' % (buckets, why))
     vb = cx.body(GEN + 'Teddy::<BUCKETS>::verify_bucket')
     gu = [vb.call_term(bi, t) for bi, t in vb.calls(r'core::slice::get_unchecked$')]
     okg = len(gu) == 1 and tstr(peel(gu[0][2][0])) == 'self.buckets' and is_var(gu[0][2][1], 'bucket')
@@ -585,30 +608,93 @@ def r15_1(cx):
 
 @only(X86)
 def r06_6(cx):
+    from acverif.sym import Sym, summarize, loop_rows, canon, cstr, teval, by_cstr
+    from acverif.rl import param_at, Unsupported, EvalPanic
     b = cx.body('packed::rabinkarp::RabinKarp::new')
-    txt = ' '.join(tstr(expand_vars(b, b.call_term(bi, t)), 300) for bi, t in b.calls())
-    hl = b.locals_named('hash_len')
-    d = b.def_term(hl[0]) if hl else None
-    ok1 = d is not None and is_call(d, r'Patterns::minimum_len$')
-    # hash_2pow = 2^(hash_len-1): loop shl by 1, hash_len-1 times starting from 1
-    h2 = b.locals_named('hash_2pow')
-    ok2 = False
-    if h2:
-        defs = var_defs_terms(b, h2[0])
-        ok2 = any(t == ('c', 1) for bi, si, t in defs) and any(is_call(t, r'wrapping_shl$') and t[2][1] == ('c', 1) for bi, si, t in defs)
-        rng = [tstr(b.call_term(bi, t), 200) for bi, t in b.calls(r'into_iter|Range')]
-        ok2 = ok2 and any(st['k'] == 'assign' and 'Range' in tstr(b.rvalue_term(st['r'], 0, bi)) and 'hash_len' in tstr(b.rvalue_term(st['r'], 0, bi)) and '1' in tstr(b.rvalue_term(st['r'], 0, bi)) for bi in b.live_blocks() for st in b.blocks[bi]['stmts']) or ok2 and 'Range{start: 1, end: hash_len}' in txt.replace('core::ops::Range::', '')
-    cx.report('R06.6', b, 'window', ok1 and ok2, 'hash window = patterns.minimum_len(); hash_2pow = 2^(hash_len - 1)' if ok1 and ok2 else 'Rabin-Karp window/power deviate (window=%s, power=%s)' % (ok1, ok2))
+    PAT = cstr(param_at(b, 1))
+    ML = 'packed::pattern::Patterns::minimum_len(%s)' % PAT
+    ML2 = '%s.minimum_len' % PAT
+    why = None
+    # the RabinKarp value built: hash_len = minimum_len; hash_2pow = the cursor of a loop that doubles it hash_len - 1 times
+    aggs = [b.rvalue_term(st['r'], 0, bi) for bi, si, pl, st in b.stores() if si != 'term' and st['r'].get('k') == 'agg' and str(st['r'].get('adt', '')).endswith('rabinkarp::RabinKarp')]
+    frows = [r for r in summarize(cx.facts, b) if r.end == 'return']
+    pw = None
+    for r in frows:
+        rt = r.ret
+        while rt is not None and rt[0] in ('phi', 'upd'):
+            rt = rt[3] if rt[0] == 'phi' else rt[1]      # the value is completed by a later loop that only fills the buckets
+        if not (rt is not None and rt[0] == 'agg' and isinstance(rt[3], dict) and 'hash_len' in rt[3]):
+            continue
+        if cstr(rt[3]['hash_len']) not in (ML, ML2):
+            why = 'hash_len = %s (expected patterns.minimum_len())' % tstr(canon(rt[3]['hash_len']), 80)
+        pw = rt[3]['hash_2pow']
+    if pw is None:
+        why = why or 'no RabinKarp value with hash_len / hash_2pow is returned'
+    elif pw[0] != 'phi':
+        why = why or 'hash_2pow = %s is not computed by the doubling loop' % tstr(canon(pw), 80)
+    else:
+        h, l = pw[1], pw[2]
+        try:
+            if teval(pw[3], lambda t0: None) != 1:
+                why = why or 'hash_2pow does not start at 1'
+        except (Unsupported, EvalPanic):
+            why = why or 'hash_2pow start value unknown'
+        cur = Sym(cx.facts, b).default_local(l)
+        cont = [r for r in loop_rows(cx.facts, b, h) if r.end == ('stop', h)]
+        if not cont:
+            why = why or 'the doubling loop never iterates'
+        for r in cont:
+            try:
+                if teval(r.env.get(l, cur), lambda t0: 5 if t0 == cur else None) != 10:
+                    why = why or 'an iteration does not double hash_2pow'
+            except (Unsupported, EvalPanic):
+                why = why or 'the hash_2pow update cannot be evaluated'
+        # iteration count: the range 1..hash_len on arrival
+        arr = [r for r in Sym(cx.facts, b, start=0, stop={h}).rows() if r.end == ('stop', h)]
+        nx = [b.call_term(bi, t0) for bi, t0 in b.calls(r'Iterator::next$') if bi in b.loops()[h]]
+        okr = False
+        if len(nx) == 1 and arr:
+            recv = peel_all(nx[0][2][0])
+            if recv[0] == 'v':
+                src = canon(arr[0].env.get(recv[2], ('s', '?')))
+                okr = is_agg(src, r'core::ops::Range$') and src[3]['start'] == ('c', 1) and cstr(src[3]['end']) in (ML, ML2)
+        if not okr:
+            why = why or 'the doubling loop does not run over 1..hash_len'
+    cx.report('R06.6', b, 'window', why is None, 'hash window = patterns.minimum_len(); hash_2pow = 2^(hash_len - 1)' if why is None else 'Rabin-Karp window/power deviate: %s' % why)
     u = cx.body('packed::rabinkarp::RabinKarp::update_hash')
-    t = strip_convs(expand_vars(u, u.local_term(0, expand=True), keep=('self', 'prev', 'old_byte', 'new_byte')))
-    s = tstr(t, 400).replace('core::num::', '')
-    ok = ('wrapping_add(wrapping_shl(wrapping_sub(prev, wrapping_mul(self.hash_2pow, old_byte)), 1), new_byte)' in s
-          or 'wrapping_add(wrapping_shl(wrapping_sub(prev, wrapping_mul(old_byte, self.hash_2pow)), 1), new_byte)' in s)
-    cx.report('R06.6', u, 'update', ok, 'update = ((prev - old * hash_2pow) << 1) + new (wrapping)' if ok else 'update_hash = %s' % s[:200])
+    urows = [r for r in summarize(cx.facts, u) if r.end == 'return']
+    PREV, OLD, NEW = (cstr(param_at(u, i)) for i in (2, 3, 4))
+    ok = len(urows) == 1
+    if ok:
+        try:
+            for pv, ov, nv, hp in ((1000, 3, 5, 8), (77, 11, 2, 16), (5000, 200, 250, 4), (123456, 7, 9, 1)):
+                got = teval(urows[0].ret, by_cstr({PREV: pv, OLD: ov, NEW: nv, 'self.hash_2pow': hp}))
+                if got != ((pv - ov * hp) << 1) + nv:
+                    ok = False
+        except (Unsupported, EvalPanic):
+            ok = False
+        ok = ok and all(re.search(r'wrapping_', short(c[1])) for c in urows[0].calls(r'core::num::'))
+    cx.report('R06.6', u, 'update', ok, 'update = ((prev - old * hash_2pow) << 1) + new (wrapping)' if ok else 'update_hash deviates from ((prev - old * hash_2pow) << 1) + new')
     hh = cx.body('packed::rabinkarp::RabinKarp::hash')
-    s = ' '.join(tstr(hh.call_term(bi, t), 200) for bi, t in hh.calls()).replace('core::num::', '')
-    ok = 'wrapping_shl(hash, 1)' in s and 'wrapping_add' in s
-    cx.report('R06.6', hh, 'hash', ok, 'hash = fold((h << 1) + byte) over the window' if ok else 'hash deviates')
+    okh = False
+    hl = hh.loops()
+    if len(hl) == 1:
+        h = list(hl)[0]
+        sym = Sym(cx.facts, hh)
+        mods, _ = sym.loop_mods(h)
+        accs = [l for l in mods if hh.locals[l]['ty'] == 'usize' and hh.locals[l]['names']]
+        for r in loop_rows(cx.facts, hh, h):
+            if r.end != ('stop', h):
+                continue
+            nx = [c[1] for c, v in r.conds if c[0] == 'discr' and is_call(c[1], r'Iterator::next$') and v == 1]
+            for l in accs:
+                cur = sym.default_local(l)
+                try:
+                    if nx and teval(r.env.get(l, cur), lambda t0: 9 if t0 == cur else (4 if (t0[0] == 'f' and t0[1][0] == 'dc' and t0[1][1] == nx[0]) else None)) == (9 << 1) + 4:
+                        okh = True
+                except (Unsupported, EvalPanic):
+                    pass
+    cx.report('R06.6', hh, 'hash', okh, 'hash = fold((h << 1) + byte) over the window' if okh else 'hash deviates')
 
 
 @only(X86)
